@@ -263,8 +263,7 @@ Section WithArith.
      rows is accepted and reports every later row as the full history does *)
   Definition history_ok (rows : list tx) : bool :=
     match snd (sec_run rows) with None => true | Some _ => false end.
-  Definition roundtrip_ok (latest : Z) (annual : bool) (rows : list tx) : bool :=
-    let '(ds, _) := sec_run rows in
+  Definition roundtrip_of (latest : Z) (annual : bool) (rows : list tx) (ds : list delta) : bool :=
     match make_summary latest ds annual with
     | Ok sums =>
         let '(ds2, o2) := sec_run (number_from 0 (sums ++ rows_after latest rows)) in
@@ -274,6 +273,8 @@ Section WithArith.
         end
     | _ => false
     end.
+  Definition roundtrip_ok (latest : Z) (annual : bool) (rows : list tx) : bool :=
+    roundtrip_of latest annual rows (fst (sec_run rows)).
 
   Definition within_after (a b : Z) : bool := (a <=? b) && (b <=? a + window_days).
   Definition plain_loss_sell (d : delta) : bool :=
@@ -285,8 +286,7 @@ Section WithArith.
   (* K_summary_buy_in_window: a sale at a loss that is not superficial in the
      full history, re-emitted or later, settles within 30 days after a
      generated purchase *)
-  Definition K_summary_buy_in_window (latest : Z) (annual : bool) (rows : list tx) : bool :=
-    let '(ds, _) := sec_run rows in
+  Definition K1_of (latest : Z) (annual : bool) (ds : list delta) : bool :=
     match summary_ranges latest ds, make_summary_parts latest ds annual with
     | Some rg, Ok (gen, _) =>
         existsb (fun b => is_buy (t_act b)
@@ -294,10 +294,11 @@ Section WithArith.
                                      (skipn (first_unsum rg) ds)) gen
     | _, _ => false
     end.
+  Definition K_summary_buy_in_window (latest : Z) (annual : bool) (rows : list tx) : bool :=
+    K1_of latest annual (fst (sec_run rows)).
   (* K_annual_sell_in_window: an acquisition, re-emitted or later, settles
      within 30 days after a generated 1-January sale that realises a loss *)
-  Definition K_annual_sell_in_window (latest : Z) (annual : bool) (rows : list tx) : bool :=
-    let '(ds, _) := sec_run rows in
+  Definition K2_of (latest : Z) (annual : bool) (ds : list delta) : bool :=
     match summary_ranges latest ds, make_summary_parts latest ds annual with
     | Some rg, Ok (gen, _) =>
         existsb (fun s => gen_loss_sell s
@@ -305,9 +306,10 @@ Section WithArith.
                                      (skipn (first_unsum rg) ds)) gen
     | _, _ => false
     end.
+  Definition K_annual_sell_in_window (latest : Z) (annual : bool) (rows : list tx) : bool :=
+    K2_of latest annual (fst (sec_run rows)).
   (* K_zero_balance_acb: a summarised affiliate ends with no shares but a cost base *)
-  Definition K_zero_balance_acb (latest : Z) (rows : list tx) : bool :=
-    let '(ds, _) := sec_run rows in
+  Definition K3_of (latest : Z) (ds : list delta) : bool :=
     match ds, summary_ranges latest ds with
     | dflt :: _, Some rg =>
         existsb (fun x => let post := d_post (nth (snd x) ds dflt) in
@@ -316,4 +318,5 @@ Section WithArith.
                 (summary_afs rg ds)
     | _, _ => false
     end.
+  Definition K_zero_balance_acb (latest : Z) (rows : list tx) : bool := K3_of latest (fst (sec_run rows)).
 End WithArith.
